@@ -11,6 +11,7 @@
 -/
 import LiteFSVerif.Proofs.Image
 import LiteFSVerif.Proofs.Engine
+import LiteFSVerif.Proofs.Log
 
 set_option linter.unusedSimpArgs false
 
@@ -45,6 +46,19 @@ theorem C02_capture_bounds (new : Img) (dirty : List Nat) (txid : Nat) (pre post
 theorem C02_rollback_identity (prev : Img) (dirty : List Nat) (txid : Nat) (pre post : Chk) :
     apply prev (capture prev dirty txid txid pre post) = prev :=
   apply_capture prev prev dirty txid txid pre post (fun _ _ h => absurd rfl h)
+
+/-- engine (byte level): a rollback-journal commit with a valid journal header publishes exactly
+    one file; its pages are, in increasing page order, the *current bytes of the database file* of
+    every page written since the last commit (the dirty set) that lies within the new size (the
+    header's page count), except the lock page; its size field is that page count.  Together with
+    `C02_capture_exact` (the dirty set covers every changed page: every page SQLite changed went
+    through `WriteDatabaseAt`) the file applied to the previous image is the image SQLite sees. -/
+theorem C02_commit_captures_database_bytes (s s' : Eng) (mode : Nat) (h : commitJournalValid s mode = .ok s') :
+    ∃ (dbf : ByteArray) (lock : Nat) (f : LTXFile), s.dbFile = some dbf ∧ Cks.lockPgno s.pageSize = .ok lock ∧
+      s'.ltx = addLTX s.ltx f ∧ f.commit = BA.be32 dbf 28 ∧
+      f.pages = ((sortNat (s.dirty.filter (· ≤ BA.be32 dbf 28))).filter (· ≠ lock)).map
+        (fun p => (p, dbf.extract ((p - 1) * s.pageSize) ((p - 1) * s.pageSize + s.pageSize))) :=
+  commitJournalValid_captures s s' mode h
 
 /-- engine: on a node without write authority `CommitJournal` refuses and changes nothing -/
 theorem C02_commit_readonly (s : Eng) (mode : Nat) (h : s.writeable = false) :
